@@ -265,7 +265,7 @@ def split_stream(data: bytes):
     return [data], False
 
 
-def decode(data: bytes, delimited=None):
+def decode(data: bytes, delimited=None, complete=True):
     """-> (items normalised, options dict, decoder). Raises RefInvalid / WireError."""
     if delimited is None:
         frames, delimited = split_stream(data)
@@ -281,7 +281,7 @@ def decode(data: bytes, delimited=None):
         raise RefInvalid(f"wire: {e}") from None
     if dec.options is None:
         raise RefInvalid("no options row")
-    if dec.in_graph:
+    if dec.in_graph and complete:
         raise RefInvalid("stream ends inside an open graph (missing graph end)")
     return [norm_item(i) for i in dec.items], dec.options, dec
 
